@@ -800,6 +800,46 @@ fn check_field_identifiers(file: &File) -> Result<(), Diagnostics> {
     diagnostics.err_or(())
 }
 
+/// Check field identifiers after group inlining, including the fields
+/// inherited from the parent declarations.
+/// Raises error diagnostics for the following cases:
+///      - duplicate field identifier, where one of the two fields is
+///        declared in an inlined group or in a parent declaration
+fn check_inherited_field_identifiers(file: &File, scope: &Scope) -> Result<(), Diagnostics> {
+    let mut diagnostics: Diagnostics = Default::default();
+    for decl in &file.declarations {
+        let mut decl_scope: HashMap<&str, &Field> = HashMap::new();
+        for field in scope.iter_parent_fields(decl) {
+            if let Some(id) = field.id() {
+                decl_scope.entry(id).or_insert(field);
+            }
+        }
+        for field in decl.fields() {
+            if let Some(id) = field.id() {
+                if let Some(prev) = decl_scope.insert(id, field) {
+                    diagnostics.push(
+                        Diagnostic::error()
+                            .with_code(ErrorCode::DuplicateFieldIdentifier)
+                            .with_message(format!(
+                                "redeclaration of {} field identifier `{}`",
+                                field.kind(),
+                                id
+                            ))
+                            .with_labels(vec![
+                                field.loc.primary(),
+                                prev.loc
+                                    .secondary()
+                                    .with_message(format!("`{id}` is first declared here")),
+                            ]),
+                    )
+                }
+            }
+        }
+    }
+
+    diagnostics.err_or(())
+}
+
 /// Check enum declarations.
 /// Raises error diagnostics for the following cases:
 ///      - duplicate tag identifier
@@ -1935,6 +1975,7 @@ pub fn analyze(file: &File) -> Result<File, Diagnostics> {
     let mut file = inline_groups(&file)?;
     desugar_flags(&mut file);
     let scope = Scope::new(&file)?;
+    check_inherited_field_identifiers(&file, &scope)?;
     check_decl_constraints(&file, &scope)?;
     let schema = Schema::new(&file);
     check_field_offsets(&file, &scope, &schema)?;
